@@ -143,6 +143,21 @@ class Producers:
             init = self._let_init(f, e["segs"][0])
             if init is not None:
                 return self._mentions_unraw(f, init, depth + 1)
+            # a parameter of a (new) helper that builds the model value: what every caller hands in
+            plist = [p for p in f.sig.get("params", []) if p.get("pat")]
+            idx = [i for i, p in enumerate(plist) if p["pat"].get("name") == e["segs"][0]]
+            if idx:
+                sites = []
+                for g in self.S.fns:
+                    if g.body is None:
+                        continue
+                    for x in walk_block(g.body):
+                        if x.get("k") == "mcall" and x["method"] == f.name and len(x["args"]) == len(plist):
+                            sites.append((g, x["args"][idx[0]]))
+                        elif x.get("k") == "call" and len(x["args"]) == len(plist) and re.sub(r"\s+", "", expr_text(x["func"])).split("::")[-1] == f.name:
+                            sites.append((g, x["args"][idx[0]]))
+                if sites:
+                    return all(self._mentions_unraw(g, a, depth + 1) for g, a in sites)
         return False
 
     def _stmts(self, f):
